@@ -8,7 +8,7 @@ CONSTANTS ScriptLen,      \* all scripts over Ops up to this length ...
           Comps, Pools, Bounds, Caps,
           MaxAt,          \* write faults at unit offsets 0..MaxAt
           FaultKinds,     \* subset of the fault kinds
-          FdFix
+          FdFix, EmptyFix
 
 Rep(op, k) == [i \in 1..k |-> op]
 ShortScripts == UNION {[1..k -> Ops] : k \in 0..ScriptLen}
@@ -19,7 +19,9 @@ Long == IF LongScripts
               <<"buf", "flush", "buf", "flush", "close", "close">>,       \* many polls, second close
               <<"item", "buf", "item", "close", "buf">>,                  \* the item buffer is flushed by operator()(Buffer)
               <<"buf", "buf", "big", "flush", "close", "close">>,         \* user-thread exception, then close twice
-              <<"buf", "buf", "buf", "buf">>}                             \* never closed: only the destructor
+              <<"buf", "buf", "buf", "buf">>,                             \* never closed: only the destructor
+              <<"buf", "nul", "buf", "close">>,                           \* a buffer that is encoded to nothing, data after it
+              <<"item", "nul", "item", "item", "flush", "close">>}
         ELSE {}
 
 HdrOf(f) == f \in {"xml", "pbf"}
@@ -39,7 +41,7 @@ Faults(comp, pool, f) ==
 
 Mk(s, f, comp, sync, fl, pool, b, cap) ==
    [script |-> s, hdr |-> HdrOf(f), trl |-> TrlOf(f), comp |-> comp, fsync |-> sync, fault |-> fl, pool |-> pool,
-    maxQ |-> b, cap |-> cap, fdfix |-> FdFix, defer |-> (f = "pbf")]
+    maxQ |-> b, cap |-> cap, fdfix |-> FdFix, emptyfix |-> EmptyFix, defer |-> (f = "pbf")]
 
 TheConfigs ==
   UNION {
@@ -47,7 +49,7 @@ TheConfigs ==
    : f \in Formats, comp \in Comps, pool \in Pools, b \in Bounds, cap \in Caps}
 
 AllKinds == {"write", "fsync", "close", "cwrite", "cclose", "epool", "ehdr", "ebuf", "eend"}
-AllOps == {"buf", "item", "big", "flush", "close"}
+AllOps == {"buf", "nul", "item", "big", "flush", "close"}
 
 -----------------------------------------------------------------------------
 (* ---- families for the behaviour export (spec -> code) ---- *)
